@@ -34,6 +34,8 @@ impl Copy for BoundingBox {}
 
 pub enum SvgdxError { Other }
 pub type Result<T> = core::result::Result<T, SvgdxError>;
+/// the configured depth limit (a field of the real TransformConfig; U-depth / U-config work on the real struct)
+pub uninterp spec fn depth_limit_of(c: TransformConfig) -> u32;
 pub struct TransformConfig { pub add_metadata: bool, pub debug: bool, pub add_auto_styles: bool, pub rest: ConfigRest }
 
 //@item src/events.rs :: struct InputList
@@ -173,11 +175,15 @@ impl TransformerContext {
     #[verifier::external_body]
     pub fn inc_depth(&mut self) -> (r: Result<()>)
         ensures r is Ok ==> final(self).current_depth == old(self).current_depth + 1, r is Err ==> final(self).current_depth == old(self).current_depth,
+            r is Ok <==> old(self).current_depth + 1 <= depth_limit_of(old(self).config),      // U-depth: C17.depth.exact
+            final(self).config == old(self).config,                                           // U-depth: C17.depth.inc.frame
             final(self).scope_stack@ == old(self).scope_stack@, final(self).real_svg == old(self).real_svg
     { unimplemented!() }
     #[verifier::external_body]
     pub fn dec_depth(&mut self) -> (r: Result<()>)
         ensures old(self).current_depth > 0 ==> r is Ok && final(self).current_depth == old(self).current_depth - 1, old(self).current_depth == 0 ==> r is Err,
+            r is Err ==> final(self).current_depth == old(self).current_depth,
+            final(self).config == old(self).config,                                           // U-depth: C17.depth.dec.frame
             final(self).scope_stack@ == old(self).scope_stack@, final(self).real_svg == old(self).real_svg
     { unimplemented!() }
     /// U-scope: C15.push.scope / C15.push.innermost, C15.pop.scope (proved there)
@@ -339,6 +345,7 @@ impl EventGen for SvgElement {
         // a graphics element (shape, use, reuse) closes with the bindings it found (U-scope: C15.reuse.bindings_restored; OtherElement never touches the scopes)
         ensures graphics_name(self.name@) ==> final(context).scope_stack@ == old(context).scope_stack@,
             final(context).current_depth == old(context).current_depth,      // U-depth: C17.depth.restored
+            graphics_name(self.name@) ==> final(context).config == old(context).config,      // only <config> changes the configuration (U-config)
     { unimplemented!() }
 }
 //@item src/transform.rs :: struct Container
@@ -367,7 +374,7 @@ impl EventGen for Container {
 //@ replace[R-any] <<<let has_cdata = inner_events.iter().any(|e| e.cdata_string().is_some());>>> => <<<let has_cdata = any_cdata(&inner_events);>>>
 //@ replace-all[R-default] <<<inner_text.unwrap_or_default()>>> => <<<string_or_empty(inner_text)>>>
 //@ replace-re[R-string] <<<so_far\.push_str\(([^;]+)\);>>> => <<<string_push_str(&mut so_far, \1);>>>
-//@ before <<<let res = el.generate_events(context);>>>
+//@ after <<<// give back the depth already counted for it\n                context.dec_depth()?;>>>
 //@ | assert(context.current_depth + 1 == old(context).current_depth); // the element itself, dispatched again as an empty one, is not a nesting level of its own: the dispatcher counts it once @C17.depth.text_content_same_level
 //@ before <<<el.set_attr("text", text);>>>
 //@ | assert(text@ == content_sig(inner_events.events@, inner_events.events@.len() as int, has_cdata_spec(inner_events.events@))); // element content promoted to the text attribute is the author's text: every piece, in order, verbatim @C19.content.promoted_verbatim @C19.content.whole
@@ -377,6 +384,7 @@ impl EventGen for Container {
 //@     && *final(context) == *old(context)     @@C03.nested.verbatim
 //@ - r is Ok && old(context).scope_stack.len() > 0 ==> final(context).scope_stack@ == old(context).scope_stack@     @@C15.container.bindings_restored
 //@ - r is Ok ==> final(context).current_depth == old(context).current_depth     @@C17.depth.container_restored
+//@ - r is Err && 0 < old(context).current_depth <= depth_limit_of(old(context).config) && graphics_name(self.0.name@) && self.0.inner_events_some(*old(context)) ==> final(context).current_depth == old(context).current_depth     @@C17.depth.container_restored_on_error
 //@ - r is Ok && (self.0.name@ == "clipPath"@ || self.0.name@ == "mask"@ || self.0.name@ == "marker"@ || self.0.name@ == "pattern"@ || self.0.name@ == "defs"@) ==> r->Ok_0.1 is None     @@C08.container.referenced_only_adds_nothing
 //@ loop 1
 //@ iter it
